@@ -119,9 +119,28 @@ func vkLoadBase() (*arvados.Cluster, error) {
 type vkVolSpec struct {
 	UUID      string
 	Root      string
-	ReadOnly  bool
+	ReadOnly  bool // Volumes.<uuid>.ReadOnly
 	Serialize bool
+	// Access restricts the volume through Volumes.<uuid>.AccessViaHosts:
+	//   ""            no AccessViaHosts entry at all
+	//   "ro-host"     this server's URL is listed with ReadOnly: true (another
+	//                 server has read-write access); volume.ReadOnly stays false
+	//   "rw-via-host" this server's URL is listed read-write, another server's
+	//                 URL is listed read-only
+	Access string
 }
+
+const (
+	vkAccessROHost    = "ro-host"
+	vkAccessRWViaHost = "rw-via-host"
+)
+
+// vkOtherURL is some other keepstore server of the same cluster.
+var vkOtherURL = arvados.URL{Scheme: "http", Host: "otherkeep.example.invalid:25107"}
+
+// ReadOnlyHere tells whether the mount is read-only for the server under test
+// (either way of configuring it).
+func (v vkVolSpec) ReadOnlyHere() bool { return v.ReadOnly || v.Access == vkAccessROHost }
 
 type vkConf struct {
 	Vols          []vkVolSpec
@@ -154,12 +173,22 @@ func vkCluster(t vkT, c vkConf) *arvados.Cluster {
 	cl.Volumes = map[string]arvados.Volume{}
 	for _, v := range c.Vols {
 		dp, _ := json.Marshal(map[string]interface{}{"Root": v.Root, "Serialize": v.Serialize})
-		cl.Volumes[v.UUID] = arvados.Volume{
+		cv := arvados.Volume{
 			Driver:           "Directory",
 			DriverParameters: dp,
 			Replication:      1,
 			ReadOnly:         v.ReadOnly,
 		}
+		switch v.Access {
+		case vkAccessROHost:
+			cv.AccessViaHosts = map[arvados.URL]arvados.VolumeAccess{vkServiceURL: {ReadOnly: true}, vkOtherURL: {}}
+		case vkAccessRWViaHost:
+			cv.AccessViaHosts = map[arvados.URL]arvados.VolumeAccess{vkServiceURL: {}, vkOtherURL: {ReadOnly: true}}
+		case "":
+		default:
+			t.Fatalf("VERIF-INFRA: unknown volume access mode %q", v.Access)
+		}
+		cl.Volumes[v.UUID] = cv
 	}
 	return &cl
 }
